@@ -13,25 +13,26 @@ NOTE = ("Trusted: go/types+go/ssa lowering, the SMT solvers, govc's SSA->SMT rul
 
 claimed = {
   "C01": ("4 C01", "WGSL binary operator -> SPIR-V opcode table of emitBinary proved against the SPIR-V instruction semantics for every (operator, scalar kind) on all eleven AddBinaryOp sites; opcode constants proved equal to the SPIR-V specification's numbers"),
-  "C10": ("4 C10", "no run-time panic and termination proved for the whole WGSL lexer (every source string), the DXIL bit writer, the DXBC container serialiser and ir.TypeSize"),
-  "C11": ("4 C11", "token positions: every token of every source string has line/column of its first character, column >= 1 (lexer position accounting proved)"),
+  "C10": ("4 C10", "no run-time panic and termination proved for the whole WGSL lexer (every source string), the DXIL bit writer, the DXBC container serialiser and retail hash, ir.TypeSize, SPIR-V Build/WriteTo and swizzlePattern"),
+  "C11": ("4 C11", "token positions: every token of every source string has line/column of its first character counted in characters, column >= 1; constant evaluator rejects zero divisors; swizzle component validation"),
   "C15": ("4 C15", "MSL bounds-check decision functions: an access is left unclamped only for a literal index below the static length; the clamp bound is length-1 of a non-empty object; policy selection per address space"),
   "C16": ("4 C16", "reserved-word tables of the three text back ends contain the languages' keywords (lists from the language specifications) and no entry is the escaped spelling of another entry"),
-  "C17": ("4 C17", "WGSL builtin -> SPIR-V BuiltIn and address space -> StorageClass tables proved against the SPIR-V specification's enumerant values; enumerant constants checked"),
+  "C17": ("4 C17", "WGSL builtin -> SPIR-V BuiltIn and address space -> StorageClass tables proved against the SPIR-V specification's enumerants; binding sort comparators are total orders on the binding keys; entry-point interface collection descends into every nested block"),
   "C02": ("4 C02", "SPIR-V physical layout proved for every module: instruction encoding (word count, operands, little-endian), header words (magic, generator, bound = next unused id, schema), sections written in the mandated order each starting where the previous ended, buffer length = header + all sections; ID allocator returns fresh ids; opcode numbers equal the specification's"),
   "C03": ("4 C03", "HLSL operator/type/cast spellings and the byte-address step of every storage access (struct member offset, index*stride for arrays, vectors, matrix columns) proved; statement reference counting visits every nested block"),
-  "C04": ("4 C04", "MSL reference counting and call walking descend into every nested block of every statement kind (type-derived obligations); bounds-check decisions see C15"),
+  "C04": ("4 C04", "MSL expression reference counting and statement walking visit every expression handle of every statement kind and descend into every nested block (type-derived obligations; decides single evaluation through baking); bounds-check decisions see C15"),
   "C05": ("4 C05", "GLSL per-entry-point reachability: every type/constant/global handle an expression kind carries is marked, statement walkers descend into every nested block (type-derived obligations)"),
-  "C06": ("4 C06", "f32<->f16 conversion kernels (float32ToHalf, halfToFloat32, roundToF16, DXIL float32ToF16Bits) proved bit-exact against SMT FloatingPoint round-to-nearest-even for all 2^32 inputs"),
-  "C07": ("4 C07", "ir.TypeSize / typeInnerSize / vectorAlignment proved equal to the WGSL SizeOf/AlignOf rules for every type shape"),
+  "C06": ("4 C06", "f32<->f16 conversion kernels (float32ToHalf, halfToFloat32, roundToF16, DXIL float32ToF16Bits) proved bit-exact against SMT FloatingPoint round-to-nearest-even for all 2^32 inputs; literal carriers exact; every folded value of tryFoldBinaryOp / evalConstantBinaryExpr equals the WGSL operator on the operand literals, zero divisors are not folded"),
+  "C07": ("4 C07", "ir.TypeSize / typeInnerSize / vectorAlignment equal WGSL SizeOf/AlignOf for every type shape; lowerStruct / typeAlignmentAndSize member offsets and spans follow the WGSL recurrence incl. @align/@size; SPIR-V Offset/MatrixStride decorations and HLSL byte-address steps equal the IR layout"),
   "C09": ("4 C09", "compaction's per-expression mark and remap functions proved to visit/remap every handle field of every expression kind (obligations derived from the Go type declarations)"),
-  "C12": ("4 C12", "frame obligations: the override pass's expression remapper writes none of the caller's shared *ExpressionHandle cells"),
-  "C13": ("4 C13", "type-derived traverse obligations for the mark/visit/remap functions of compaction, override resolution, inlining and the DXIL dead-code pass: every handle of every kind is handled, everything else unchanged"),
-  "C14": ("4 C14", "override resolution's expression remapper is the same function of its input as compaction's and does not alter the caller's module"),
-  "C18": ("4 C18", "bit writer (WriteBits/Align32/WriteVBR step-form content/zig-zag/char6/Enter-ExitBlock back-patch) and DXBC container serialisation (size, count, offset table, part headers, bounds) proved for all inputs"),
+  "C12": ("4 C12", "history: both SPIR-V Reset functions clear every field (type-derived); iteration order: every sort comparator over map-collected data in the back ends is a strict weak order separating the keys; aliasing: the override remapper writes none of the caller's cells"),
+  "C13": ("4 C13", "type-derived traverse/keep obligations for the per-node functions of compaction, override resolution, inlining, the DXIL dce/mem2reg/sroa passes and the MSL pipeline-constant remapper: every handle of every expression and statement kind is handled, nested blocks are entered, everything else unchanged"),
+  "C14": ("4 C14", "override resolution's expression remapper is the same function of its input as compaction's and does not alter the caller's module; override evaluator kernels (EvalBinaryFloat/EvalUnaryFloat/LiteralToFloat/evaluateGlobalExprAsFloat) against the WGSL operators (10 known findings); MSL override literal conversion and handle adjustment"),
+  "C18": ("4 C18", "bit writer (WriteBits/Align32/WriteVBR step-form content/zig-zag/char6/Enter-ExitBlock back-patch), DXBC container serialisation (size, count, offset table, part headers, bounds), retail hash block schedule, PSV table sizing, f16 constant bits and DXIL statement walkers proved for all inputs"),
 }
 
 not_applicable = {
+  "C08": "existence-of-success property over the whole pipeline: its per-function form needs 'the input is a valid program' as precondition, which only the un-contracted lowerer/validator establish; the total-table kernels overlap C01/C03/C17; the validator functions named by the statement keep context in maps and by-value recursion and were not brought to discharge (DESIGN.md section 5)",
   "C19": "relational (two-run) property of the whole front end; unary function contracts cannot state it (DESIGN.md section 5)",
 }
 
